@@ -646,6 +646,23 @@ func TestC18(t *testing.T) {
 				viol("stack:roundtrip-differs", "stack-roundtrip: spec differs")
 			}
 
+			// records are written in batches and read back later: an encoded record must not change when further records
+			// are encoded with the same marshaler (a smaller and a larger sibling, so that any reused buffer is overwritten)
+			keep := append([]byte(nil), enc...)
+
+			for _, pl := range []string{m.Payload + "-sibling", strings.Repeat("z", len(m.Payload)/2+1)} {
+				sib := newRes(m.NS, m.Typ, m.ID+"x", pl)
+				if _, err := st.MarshalResource(sib); err != nil {
+					viol("stack:encode-error", "stack "+fmt.Sprint(spec.Layers)+": "+err.Error())
+				}
+			}
+
+			if !bytes.Equal(keep, enc) {
+				viol("stack:record-aliased", "stack-roundtrip "+fmt.Sprint(spec.Layers)+": the bytes returned by MarshalResource changed when other resources were marshaled afterwards")
+			} else if again, err := st.UnmarshalResource(enc); err != nil || mdDiff(res.Metadata(), again.Metadata()) != "" {
+				viol("stack:record-aliased", fmt.Sprintf("stack-roundtrip %v: a record no longer decodes to its resource after other resources were marshaled (%v)", spec.Layers, err))
+			}
+
 			rep.hit("stack_roundtrip")
 			rep.hit("stack_depth_" + fmt.Sprint(len(spec.Layers)))
 
